@@ -746,6 +746,7 @@ func ruleWR6(c *Ctx) {
 		// the branch deciding tolerance: the bool condition(s) between the parse error edge and the tolerant return
 		var flagCells []*ssa.Alloc
 		for _, bf := range branchFacts(rd) {
+			curEnv = bf.A.Env
 			if bf.E.To() != tolerant.Block() && !bf.E.To().Dominates(tolerant.Block()) {
 				continue
 			}
